@@ -71,20 +71,28 @@ def run_repo_tests_under_contracts(timeout=1500):
     import subprocess
     import tempfile
     from vlib import common
+    import shutil
     src = common.krrood_src()
     repo_root = os.path.dirname(src)
     if not os.path.isdir(os.path.join(repo_root, "test")):
         repo_root = "/repo"          # a scratch copy of src/ only: use the repository's tests against it
-    rep = tempfile.mktemp(prefix="verif-contracts-", suffix=".json")
-    env = dict(os.environ, VERIF_CONTRACT_REPORT=rep, PYTHONDONTWRITEBYTECODE="1",
-               PYTHONPATH=os.pathsep.join([src, common.VERIF, common.DEPS]))
-    r = subprocess.run([common.PY, "-m", "pytest", "-q", "-p", "no:cacheprovider", "-p", "vlib.pytest_contracts", "--timeout=900",
-                        "-x", "--deselect", "test/test_eql/test_rendering.py", "test"],
-                       cwd=repo_root, env=env, capture_output=True, text=True, timeout=timeout)
+    # the suite regenerates test/dataset/ormatic_interface.py at session start: run a temporary copy of the tests
+    work = tempfile.mkdtemp(prefix="verif-repotests-")
+    rep = os.path.join(work, "report.json")
     try:
-        report = json.load(open(rep))
-        os.unlink(rep)
-    except Exception:
-        report = {"error": (r.stdout + r.stderr)[-500:]}
+        shutil.copytree(os.path.join(repo_root, "test"), os.path.join(work, "test"))
+        if os.path.exists(os.path.join(repo_root, "pytest.ini")):
+            shutil.copy(os.path.join(repo_root, "pytest.ini"), work)
+        env = dict(os.environ, VERIF_CONTRACT_REPORT=rep, PYTHONDONTWRITEBYTECODE="1",
+                   PYTHONPATH=os.pathsep.join([src, common.VERIF, common.DEPS]))
+        r = subprocess.run([common.PY, "-m", "pytest", "-q", "-p", "no:cacheprovider", "-p", "vlib.pytest_contracts", "--timeout=900",
+                            "--deselect", "test/test_eql/test_rendering.py", "test"],
+                           cwd=work, env=env, capture_output=True, text=True, timeout=timeout)
+        try:
+            report = json.load(open(rep))
+        except Exception:
+            report = {"error": (r.stdout + r.stderr)[-500:]}
+    finally:
+        shutil.rmtree(work, ignore_errors=True)
     report["pytest_tail"] = (r.stdout.strip().splitlines() or ["?"])[-1]
     return report
